@@ -15,32 +15,73 @@ theorem cnlMuTerm_one (V av : Int → ℝ) (m : CNest ℝ) (i : Int) (a : ℝ) (
   have : 1 / m.mu - 1 = (1 - m.mu) / m.mu := by field_simp
   rw [this]
 
+/-- a term whose membership is zero vanishes (`0 ^ mu_m = 0`, `mu_m ≠ 0`) -/
+theorem cnlTerm_zero (V av : Int → ℝ) (m : CNest ℝ) (i : Int) (hm : m.mu ≠ 0) :
+    cnlTerm V av m i 0 = 0 := by
+  rw [cnlTerm_real, Real.zero_rpow hm]; ring
+
+theorem cnlMuTerm_zero (mu : ℝ) (V av : Int → ℝ) (m : CNest ℝ) (i : Int) (hm : m.mu / mu ≠ 0) :
+    cnlMuTerm mu V av m i 0 = 0 := by
+  rw [cnlMuTerm_real, Real.zero_rpow hm]; ring
+
+/-- every membership of `i` is zero: the sum of its terms is zero -/
+theorem sum_giTerms_zeroMember (term : CNest ℝ → Int → ℝ → ℝ) (nests : List (CNest ℝ)) (i : Int)
+    (h0 : ∀ m ∈ nests, term m i 0 = 0) (hz : zeroMember nests i = true) :
+    (giTerms term nests i).sum = 0 := by
+  apply List.sum_eq_zero
+  intro x hx
+  obtain ⟨m, hm, p, hp, hpi, rfl⟩ := (mem_giTerms term i x nests).1 hx
+  rw [(zeroMember_iff nests i).1 hz m hm p hp hpi]
+  exact h0 m hm
+
 theorem cnlMuLogG_one (nests : List (CNest ℝ)) (V av : Int → ℝ) (i : Int)
     (hmu : ∀ m ∈ nests, m.mu ≠ 0)
-    (hpos : inSomeCNest nests i = true → 0 < (giTerms (cnlTerm V av) nests i).sum) :
+    (hpos : inSomeCNest nests i = true → zeroMember nests i = false →
+      0 < (giTerms (cnlTerm V av) nests i).sum) :
     cnlMuLogG nests 1 V av i = cnlLogG nests V av i := by
-  unfold cnlMuLogG cnlLogG
   by_cases h : inSomeCNest nests i = true
-  · rw [if_pos h, if_pos h, NumR.sum_real, NumR.sum_real]
-    have hs := sum_giTerms_scale (cnlTerm V av) (cnlMuTerm 1 V av) 1 i nests (by
-      intro m hm a
-      rw [one_mul]
-      exact cnlMuTerm_one V av m i a (hmu m hm))
-    simp only [emul_real, NumR.log_real]
-    rw [hs, one_mul, one_mul, logzero_of_pos (hpos h)]
-  · rw [if_neg h, if_neg h]
+  · cases hz : zeroMember nests i with
+    | false =>
+      rw [cnlMuLogG_listed _ _ _ _ _ h hz]
+      unfold cnlLogG
+      rw [if_pos h, NumR.sum_real]
+      have hs := sum_giTerms_scale (cnlTerm V av) (cnlMuTerm 1 V av) 1 i nests (by
+        intro m hm a
+        rw [one_mul]
+        exact cnlMuTerm_one V av m i a (hmu m hm))
+      rw [hs, one_mul, one_mul, logzero_of_pos (hpos h hz)]
+    | true =>
+      rw [cnlMuLogG_alone _ _ _ _ _ (Or.inr hz)]
+      unfold cnlLogG
+      rw [if_pos h, NumR.sum_real,
+        sum_giTerms_zeroMember (cnlTerm V av) nests i (fun m hm => cnlTerm_zero V av m i (hmu m hm)) hz,
+        logzero_zero]
+      simp
+  · have h' : inSomeCNest nests i = false := by simpa using h
+    rw [cnlMuLogG_alone _ _ _ _ _ (Or.inl h')]
+    unfold cnlLogG
+    rw [if_neg h]
     simp
 
-theorem cnlMuP_one (nests : List (CNest ℝ)) (alts : List Int) (V av : Int → ℝ) (c : Int)
-    (hc : c ∈ alts) (ok : CnlOK nests av)
-    (hr : ∀ i ∈ alts, avail av i = true → Reachable nests i) :
+/-- explicit scale one = unscaled, for every well-formed cross-nested structure: an alternative
+whose memberships are all zero is alone in both versions, any other listed alternative has a
+positive membership (none is negative) -/
+theorem cnlMuP_one_all (nests : List (CNest ℝ)) (alts : List Int) (V av : Int → ℝ) (c : Int)
+    (hc : c ∈ alts) (ok : CnlOK nests av) :
     cnlMuP nests 1 alts V av c = cnlP nests alts V av c := by
   rw [cnlMuP_eq_mevP, cnlP_eq_mevP]
   apply mevP_congr alts V _ _ av c hc
-  intro i hi hav
+  intro i _ hav
   apply cnlMuLogG_one nests V av i ok.mu_ne
-  intro hin
-  exact sum_cnlTerms_pos nests V av i ok (avail_pos av i ok.av_nonneg hav) (hr i hi hav hin)
+  intro _ hz
+  exact sum_cnlTerms_pos nests V av i ok (avail_pos av i ok.av_nonneg hav)
+    (pos_of_zeroMember_false nests i ok.alpha_nonneg hz)
+
+theorem cnlMuP_one (nests : List (CNest ℝ)) (alts : List Int) (V av : Int → ℝ) (c : Int)
+    (hc : c ∈ alts) (ok : CnlOK nests av)
+    (_hr : ∀ i ∈ alts, avail av i = true → Reachable nests i) :
+    cnlMuP nests 1 alts V av c = cnlP nests alts V av c :=
+  cnlMuP_one_all nests alts V av c hc ok
 
 /-! ## every alternative wholly in one nest: cross-nested = nested -/
 
